@@ -404,6 +404,8 @@ func (e *allocEngine) afterAlloc(op string, s *allocSvc, had bool, pre VerifSnap
 				e.c.Count("event:lower-rank-pool-had-address")
 				if !dualPrefer {
 					e.c.Violation("auto:priority-inverted", fmt.Sprintf("Allocate for %s chose pinned pool %s (priority %d) although pinned pool %s (priority %d) had an admissible address", s.key, pn, p.Priority, cd.p.Name, cd.p.Priority), nil)
+				} else if preWorld.poolGivesFamiliesOf(cd.p, &req, got, true) {
+					e.c.Violation("auto:priority-inverted:prefer-dual-stack", fmt.Sprintf("Allocate for PreferDualStack %s gave %v from pinned pool %s (priority %d) although pinned pool %s (priority %d) had available addresses of the same families", s.key, got, pn, p.Priority, cd.p.Name, cd.p.Priority), nil)
 				}
 			}
 		}
